@@ -723,7 +723,11 @@ func genClientScript(r *rand.Rand, trace, length int, profile string) *clScript 
 			v = uint32(r.Intn(3))
 		}
 		errno := pickErrno(r)
-		sc.Ops = append(sc.Ops, clOp{Name: name, Mode: mode, Value: limbs(v), Plan: [][]simFrame{append(gap(r), ackFrame(errno))}})
+		plan := [][]simFrame{append(gap(r), ackFrame(errno))}
+		if mode == "nowait" && r.Intn(8) == 0 {
+			plan = [][]simFrame{{{K: "sendfail", Rel: "own", Payload: []int{}}}} // never reaches the kernel: not pending
+		}
+		sc.Ops = append(sc.Ops, clOp{Name: name, Mode: mode, Value: limbs(v), Plan: plan})
 	}
 	addWaitOp := func() {
 		errno := pickErrno(r)
@@ -765,6 +769,14 @@ func genClientScript(r *rand.Rand, trace, length int, profile string) *clScript 
 		default:
 			sc.Ops = append(sc.Ops, clOp{Name: "DeleteRule", Mode: "wait", Arg: randomPayload(r, 1+r.Intn(200)), Plan: [][]simFrame{ackScript}})
 		}
+	}
+	if profile == "C17" && trace%7 == 0 {
+		// a long run of NoWait settings before the ACKs are collected (a daemon's start-up, many times over)
+		for n := 17 + r.Intn(24); n > 0; n-- {
+			addSetter("nowait")
+		}
+		sc.Ops = append(sc.Ops, clOp{Name: "WaitForPendingACKs", Mode: "wait"})
+		sc.Ops = append(sc.Ops, clOp{Name: "WaitForPendingACKs", Mode: "wait"})
 	}
 	for len(sc.Ops) < length {
 		if profile != "C17" {
